@@ -127,6 +127,15 @@ def compile_path(conds, terms, order):
     return e4.compile_path(conds, terms, order)
 
 
+def stride(n, target):
+    """step for sampling about *target* of the *n* sweep entries; the sweep lists three times of day
+    per date, so a step that is a multiple of 3 would only ever pick one of them"""
+    step = max(1, n // max(1, target))
+    while step > 1 and step % 3 == 0:
+        step += 1
+    return step
+
+
 def ts_sweep(tier):
     """Reference times: every day of the range at three times of day."""
     if tier == "thorough":
